@@ -416,3 +416,34 @@ Proof.
   split; [cbn; repeat split; intros; try reflexivity; discriminate |].
   eexists. split; [vm_compute; reflexivity | intros H; discriminate H].
 Qed.
+
+(** ** Further laws (used by chalk everywhere, not part of C25's wording) *)
+
+(** Two shifts at the same cut-off add up. *)
+Lemma shift_in_shift_in_lemma : forall t n m k, shift_in m k (shift_in n k t) = shift_in (n + m) k t.
+Proof.
+  induction t as [s d i | d i c IH | h cs IH] using tm_ind'; intros n m k; cbn [shift_in].
+  - destruct (N.leb_spec k d) as [H | H]; cbn [shift_in].
+    + destruct (N.leb_spec k (d + n)); [| lia]. var_eq.
+    + destruct (N.leb_spec k d); [lia | reflexivity].
+  - destruct (N.leb_spec k d) as [H | H]; cbn [shift_in].
+    + destruct (N.leb_spec k (d + n)); [| lia]. var_eq.
+    + destruct (N.leb_spec k d); [lia | reflexivity].
+  - f_equal. rewrite map_map. apply map_ext_in. intros x Hx.
+    rewrite Forall_forall in IH. apply IH. assumption.
+Qed.
+
+(** Substituting into a term that was just shifted over the substituted binder gives the
+    term back, whatever the parameters (it does not mention the binder). *)
+Lemma subst_shift_cancel_lemma : forall t ps k, subst ps k (shift_in 1 k t) = Ok t.
+Proof.
+  induction t as [s d i | d i c IH | h cs IH] using tm_ind'; intros ps k; cbn [shift_in].
+  - destruct (N.leb_spec k d) as [H | H]; cbn [subst].
+    + destruct (N.leb_spec k (d + 1)); [| lia]. destruct (N.eqb_spec (d + 1) k); [lia |]. var_eq.
+    + destruct (N.leb_spec k d); [lia | reflexivity].
+  - destruct (N.leb_spec k d) as [H | H]; cbn [subst].
+    + destruct (N.leb_spec k (d + 1)); [| lia]. destruct (N.eqb_spec (d + 1) k); [lia |]. var_eq.
+    + destruct (N.leb_spec k d); [lia | reflexivity].
+  - cbn [subst]. rewrite rmap_map. rewrite (rmap_ok _ cs cs); [reflexivity |].
+    clear - IH. induction IH as [| x r Hx _ IHr]; constructor; [apply Hx | exact IHr].
+Qed.
